@@ -130,3 +130,15 @@ CHECKS["C02"] = dict(
     outside=["raw RTP/RTCP byte strings through Attributes.GetRTPHeader/GetRTCPPackets (rtp/rtcp Unmarshal on symbolic buffers)", "outgoing packet sizes", "other readers (see DESIGN)"],
     assumptions=["the unmarshal post-condition P_U used to build the structured feedback (DESIGN.md C02)"],
 )
+
+CHECKS["C14"] = dict(
+    jobs=[
+        dict(pkg="pkg/flexfec", entry="HC14Masks"),
+        dict(pkg="pkg/flexfec", entry="HC14Bytes", params=dict(media=3, fec=2, csrc=0), thorough=dict(params=dict(media=4, fec=2))),
+        dict(pkg="pkg/flexfec", entry="HC14Bytes", params=dict(media=3, fec=1, csrc=1), thorough=dict(params=dict(media=4, fec=3))),
+    ],
+    bounds=dict(quick="masks: media count in {1,2,15,16,46,47,109,110} x FEC count in {1,2,3,7}, with and without a preceding different configuration on the same coverage object, ANY (repair index, media index): combined <=> index mod k, named (independent wire reader of the 15/31/63-bit fields) <=> combined. bytes: 3 media packets x 1-2 FEC, two successive batches through one encoder, symbolic base sequence (wrap included), timestamps, marker, PT, payload length 0..2 with symbolic bytes, optional CSRC on one packet; XOR recovery of an arbitrary protected packet in the harness",
+                thorough="4 media packets, up to 3 FEC"),
+    outside=["other (media, FEC) counts than the listed grid", "payloads longer than 2 bytes / header extensions / padding at byte level", "the encoder interceptor wiring"],
+    assumptions=["sync.Pool LIFO model for the scratch buffer"],
+)
